@@ -442,7 +442,14 @@ func (r *runner) recvAll(c netio.Conn, d *Dir, dir string, wantLen int) (got []b
 		maxb = max(maxb, b)
 	}
 	buf := make([]byte, maxb)
-	if mode == "r" || mode == "mix" {
+	if mode == "rcap" {
+		// reads into a window of a much larger buffer: spare capacity behind len(b) is not the reader's to use
+		buf = make([]byte, maxb+4200)
+		for i := range buf {
+			buf[i] = 0xA5
+		}
+	}
+	if mode == "r" || mode == "mix" || mode == "rcap" {
 		zero := 0
 		for i := 0; ; i++ {
 			if mode == "mix" && i >= len(bufs) {
@@ -450,7 +457,19 @@ func (r *runner) recvAll(c netio.Conn, d *Dir, dir string, wantLen int) (got []b
 			}
 			size := bufs[i%len(bufs)]
 			r.ops.Add(1)
-			n, err := c.Read(buf[:size:size])
+			var n int
+			var err error
+			if mode == "rcap" {
+				n, err = c.Read(buf[:size])
+				for j := size; j < len(buf) && (i < 8 || i%1024 == 0); j++ {
+					if buf[j] != 0xA5 {
+						r.fail("read-wrote-beyond-buffer", dir, "Read(b) with len(b)=%d wrote to b[%d] (spare capacity behind the slice)", size, j)
+						return got, false
+					}
+				}
+			} else {
+				n, err = c.Read(buf[:size:size])
+			}
 			if n < 0 || n > size {
 				r.fail("read-count", dir, "Read(buf[%d]) returned n=%d", size, n)
 				return got, false
